@@ -13,6 +13,7 @@ import itertools
 import random
 
 from core import proto
+from . import common
 from .common import case, ordinal_instance, strict, rand_perm
 
 ID = "C04"
@@ -833,6 +834,9 @@ def impl(c):
                 _kt(a_, b_, normalise=True)
             except Exception:
                 pass
+    salt = common.salt_of(pl[:3])
+    if salt % 3 == 0:       # call / in-place edit / call: the same object held a decoy profile of the same shape first
+        inst, _ = common.prime_stale(inst, [SCm.is_single_crossing, SCm.is_single_crossing_conflict_sets], salt // 3)
     res = SCm.is_single_crossing(inst)
     if not (isinstance(res, tuple) and len(res) == 2):
         return {"crash": "is_single_crossing returned %r" % (res,)}
@@ -846,6 +850,8 @@ def impl(c):
     else:
         seq = []
     inst2 = ordinal_instance([(strict(o), mu) for o, mu in zip(orders, mult)], data_type="soc", alts=alts)
+    if salt % 3 == 1:
+        inst2, _ = common.prime_stale(inst2, [SCm.is_single_crossing_conflict_sets, SCm.is_single_crossing], salt // 3)
     cv = SCm.is_single_crossing_conflict_sets(inst2)
     if not isinstance(cv, bool):
         return {"crash": "is_single_crossing_conflict_sets returned %r" % (cv,)}
